@@ -231,7 +231,8 @@ class JsonRawFam(Family):
         return json.dumps(v, separators=(",", ":")).encode(), v
 
     def undecodable(self, rng, maxlen):
-        return rng.choice([b'{"k" 1}', b"[1,,2]", b'{"a":[1 2]}', b"[nope]"]), "IncrementalDeserializeError"
+        # incl. a stray / duplicated closing bracket: a frame of exactly one byte that costs exactly one error
+        return rng.choice([b'{"k" 1}', b"[1,,2]", b'{"a":[1 2]}', b"[nope]", b"}", b"]", b"}", b"]"]), "IncrementalDeserializeError"
 
 
 class CompressFam(Family):
